@@ -80,6 +80,8 @@ package influxql
 //@   props C07 C04
 //@   safety C04
 //@   inline
+//@   modifies fresh, bufScanner.*, reader.*, Lib#rscur, Lib#content
+//@   frameprops C07 C17
 //@   fnparam fn modifies bufScanner.*, reader.*, Lib#rscur, Lib#content
 //@   requires p != nil
 //@   ensures pos.Line == dynres(fn, 1).Line && pos.Char == dynres(fn, 1).Char
@@ -93,6 +95,10 @@ package influxql
 //@   props C07 C04
 //@   safety C04
 //@   ensures result != nil
+//@   ensures [C07] @bindbool istype(v, bool) ==> (istype(result, BooleanValue) && result.(BooleanValue) == v.(bool))
+//@   ensures [C07] @bindint istype(v, int64) ==> (istype(result, IntegerValue) && result.(IntegerValue) == v.(int64))
+//@   ensures [C07] @bindfloat istype(v, float64) ==> (istype(result, NumberValue) && result.(NumberValue) == v.(float64))
+//@   ensures [C07] @bindstring istype(v, string) ==> (istype(result, StringValue) && result.(StringValue) == v.(string))
 
 //@ func bindObjectValue
 //@   props C07 C04
